@@ -207,6 +207,7 @@ func (e *Engine) havocGuarded(st *State, ref *Term, g guardInfo) {
 				// nothing this call allocated has been made reachable for anybody else yet: the map found
 				// under the lock existed before the call
 				st.assume(Lt(m.Ref, st.alloc0))
+				e.Assumptions["a map found under a lock acquired before this call has stored, passed or sent anything is not an object this call allocated (objects are reachable for other goroutines only once published)"] = true
 			}
 			if st.guardedRefs == nil {
 				st.guardedRefs = map[string]string{}
